@@ -214,6 +214,16 @@ func init() {
 			},
 		},
 		propCheck{
+			ID: "C43", Level: "exploration",
+			Rule: "one evaluation = one simulated DDL history of 4-22 (thorough: -40) statements by two sessions (root, accounts enabled) over tables (CREATE with optional unique / plain index and CHECK, DROP, RENAME), columns (ADD with FIRST / AFTER, DROP), indexes (ADD [UNIQUE], DROP), foreign keys (ADD, DROP), CHECK constraints (ADD, DROP), views, triggers and procedures (CREATE, DROP), plus inserts; statements that must fail are planted (existing or missing object, duplicate index name, DROP TABLE of a table still referenced by a foreign key) and in half of the runs a storage error is injected into a quarter of the statements. After every statement both sessions read information_schema.TABLES, VIEWS, COLUMNS (with ordinal position), STATISTICS, TABLE_CONSTRAINTS, REFERENTIAL_CONSTRAINTS, CHECK_CONSTRAINTS, KEY_COLUMN_USAGE, TRIGGERS, ROUTINES and SHOW TABLES / FULL TABLES / COLUMNS / INDEX / TRIGGERS / CREATE TABLE; each must list exactly the objects of a catalog model with the attributes the model carries (owning table, column order, uniqueness, referenced table, trigger timing and event, object type), SHOW CREATE TABLE must name every column, index and constraint of the table and none that was dropped; a statement the model refuses must fail, a failed statement changes nothing; distinct = distinct hash of the statement-kind/outcome sequence",
+			Real: []string{"sql/information_schema (tables, columns, statistics, constraints, triggers, routines, views)", "SHOW statement execution (sql/rowexec/show*.go)", "DDL execution and the memory backend's catalog (tables, views, triggers, stored procedures, foreign keys, checks)"},
+			Stub: []string{"session scheduling at statement granularity (two sessions alternate, so one session reads what the other defined)", "storage error source (verifhook.Fault at memory table editor calls)"},
+			Assumptions: []string{"foreign keys are added on child columns that already carry an index (which index a foreign key creates implicitly is not prescribed here)", "tables with foreign keys or triggers are not renamed", "accounts are enabled and both sessions are root: with no account at all the engine's information_schema.routines / parameters list nothing (they filter on a privilege set that is never computed in that mode); noted in DESIGN.md, not claimed"},
+			Subs: []subCheck{
+				{ID: "C43", World: "sqlsim", Quick: 1200, Thorough: 100000, QuickCap: 90, ThoroughCap: 1500, GC: "100"},
+			},
+		},
+		propCheck{
 			ID: "C44", Level: "exploration",
 			Rule: "one evaluation = one simulated multi-session history over 13 representative system variables (bool, bounded int, double, enum; both-scope, global-only, read-only) and 3 user variables: SET [SESSION|GLOBAL|default] with valid, boundary, out-of-range and wrong-type values, wrong scopes and read-only variables; SET @u = NULL / int / string / expression; sessions connect (inherit the current globals) and disconnect; after every step the touched variable is read in every scope of every session, and periodically everything is, against a model (global store + per-session store initialised from the globals + per-session user variables); non-trivial = >= 2 sessions; distinct = distinct hash of the action/outcome sequence",
 			Real: []string{"SET / SELECT @@ planning and execution", "sql.SystemVariables global registry, BaseSession system and user variable stores, system variable types' Convert"},
